@@ -117,10 +117,15 @@ def default_key(v: Dict[str, Any]) -> str:
     e = v.get("expect", {})
     if v.get("kind") == "tablecheck":
         return "%s|%s|%s|%s|%s" % (v["pred"], v["ina"], v["nfc"], v["warn"], e.get("passed"))
+    if v.get("kind") == "multiindex":
+        sc = v["schema"]
+        return "%s|%s|%s|%s|%s" % (json.dumps(sc, sort_keys=True), [l["name"] for l in v["levels"]], [l["pd"] for l in v["levels"]],
+                                   json.dumps(v["opts"], sort_keys=True), e.get("kind"))
     if v.get("kind") == "component":
         return "%s|%s|%s|%s" % (v["comp"], json.dumps(v["schema"], sort_keys=True), json.dumps(v["opts"], sort_keys=True), e.get("kind"))
     if v.get("kind") == "rows":
-        return "%s|%s|%s|%s|%s" % (v["backend"], v["mode"], json.dumps(v["schema"], sort_keys=True), e.get("kind"), sorted(v.get("devs") or []))
+        return "%s|%s|%s|%s|%s|%s" % (v["backend"], v["mode"], json.dumps(v["schema"], sort_keys=True), e.get("kind"),
+                                      sorted(v.get("devs") or []), v.get("ix"))
     if v.get("kind") == "model":
         return "%s|%s" % (v.get("backend"), " ".join("%s%s" % (o[0][0], o[1]) for o in v["hist"]))
     if not isinstance(e, dict):
